@@ -23,7 +23,7 @@ func popcount(x int) int {
 }
 
 func init() {
-	s := &Spec{Prop: "C17", Profile: profCb, Opts: RunOpts{Prop: "C17", Probe: true, Decode: true},
+	s := &Spec{Prop: "C17", Profile: profCb, Opts: RunOpts{Prop: "C17", Probe: true, Decode: true, Lazy: true},
 		NonTrivial: func(c *Case, ev map[string]int) bool {
 			invoked := any(ev, "cb_itemalloc", "cb_vallength", "cb_valwrite", "cb_valread", "cb_beforewrite", "cb_afterread", "cb_keycompare")
 			return popcount(c.Cfg.Callbacks) >= 2 && invoked && has(ev, "flush") && any(ev, "evict_effective", "reopen")
